@@ -481,7 +481,7 @@ impl Check for C01Check {
     fn components(&self) -> Value {
         json!({"real": ["every TryFrom<&[u8]> decoder of alpha_g_detector", "TryFrom<Vec<Chunk>>", "chronobox_fifo", "all *BankName / BoardId TryFrom<&str>", "id conversions", "accessors and Display impls"],
                "model": ["firmware encoders (ADC v3, MCP chunk + CRC-32C, PWB v2, TRG v3, Chronobox)", "datagram fault injector"],
-               "simulated": ["allocator limit: the processes run under a 4 GiB address-space limit, so a wild allocation fails (abort) instead of being over-committed"], "stub": [], "build_modes": ["release (overflow checks off)", "relchk (overflow checks + debug assertions on)"]})
+               "simulated": ["caller stack: the decoders run on a 2 MiB thread stack (std default)", "allocator limit: the processes run under a 4 GiB address-space limit, so a wild allocation fails (abort) instead of being over-committed"], "stub": [], "build_modes": ["release (overflow checks off)", "relchk (overflow checks + debug assertions on)"]})
     }
     fn count(&self, tier: Tier) -> u64 {
         2 * match tier {
@@ -525,6 +525,26 @@ impl Check for C01Check {
     }
 
     fn run(&self, scenario: &Value, stats: &mut Stats) -> Outcome {
+        // the decoders run on a thread with the stack an ordinary caller has (2 MiB, std's default
+        // for spawned threads), not on the worker's 512 MiB stack: recursion whose depth the sender
+        // controls must overflow here as it would there (process abort -> no-abort)
+        std::thread::scope(|sc| {
+            std::thread::Builder::new()
+                .stack_size(2 << 20)
+                .spawn_scoped(sc, || run_on_caller_stack(scenario, stats))
+                .expect("spawn runner thread")
+                .join()
+                .unwrap_or_else(|p| std::panic::resume_unwind(p))
+        })
+    }
+
+    fn shrink(&self, _scenario: &Value) -> Vec<Value> {
+        // a narrowed C01 scenario is already one explicit input to one entry point
+        vec![]
+    }
+}
+
+fn run_on_caller_stack(scenario: &Value, stats: &mut Stats) -> Outcome {
         let scn: Scn = serde_json::from_value(scenario.clone()).expect("C01 scenario");
         let have_checks = cfg!(debug_assertions);
         if (scn.mode == "relchk") != have_checks {
@@ -970,9 +990,3 @@ impl Check for C01Check {
         cx.stats.probe_n("accepted_inputs", cx.oks);
         Outcome { log_hash: log.finish(), nontrivial: cx.calls > 1, violations: cx.viol }
     }
-
-    fn shrink(&self, _scenario: &Value) -> Vec<Value> {
-        // a narrowed C01 scenario is already one explicit input to one entry point
-        vec![]
-    }
-}
